@@ -113,12 +113,13 @@ CHECKS.update({
     "C07": (
         "Hypothesis-generated histories/iterations with GC disabled: cleared-graph invariant, object census by type, gradient staleness rules, bit-identical repetition",
         "Generated search over forward/backward sequences (in-place histories incl. failing statements, or functional "
-        "DAGs iterated 2-4 times on the same leaves) with follow-up uses of kept leaves; asserts the cleared-graph "
+        "DAGs iterated 2-4 times on the same leaves) with follow-up uses of kept leaves and kept views (second backward, "
+        "in-place update of a former view, a new graph epoch built on a kept tensor); asserts the cleared-graph "
         "invariant on everything that was reachable from L, an exact census of live Tensor/Operation instances against "
         "what the harness still references (cyclic GC disabled), the persistence/staleness rules of .grad, and "
         "bit-identical gradients across repetitions. Exploration only.",
         "CPython refcounting; census relative to a per-case baseline; a second backward that is refused with "
-        "InvalidBackprop is accepted (C09).",
+        "InvalidBackprop is accepted (C09) and ends the follow-up sequence.",
         "DESIGN.md §3 C07",
     ),
 })
@@ -162,12 +163,13 @@ CHECKS.update({
     ),
     "C15": (
         "Hypothesis-generated nesting trees of the three scopes (with / decorator / to_numpy, re-entrant, exceptions at any depth) executed with real syntax against a stack model; untracked programs vs NumPy reference",
-        "Generated search over nestings of no_autodiff / mem_guard_on / mem_guard_off with try/raise nodes and depth-0 "
-        "default switches; after every enter/exit/exception the module switches must equal a stack model. Programs run "
+        "Generated search over nestings of no_autodiff / mem_guard_on / mem_guard_off with try/raise nodes and "
+        "turn_memory_guarding_on/off calls at depth 0 and inside mem-guard scope bodies; after every enter/exit/exception the module switches must equal a stack model. Programs run "
         "while tracking is off must equal the NumPy reference and record nothing (no creator/base/consumer, gradients "
         "and writeable flags untouched, in-place writes into the same ndarray), and backward() inside no_autodiff must "
         "not disturb graphs recorded earlier. Exploration only.",
-        "Single-threaded; the process-wide default is only changed at depth 0 as the property states.",
+        "Single-threaded; the process-wide switch is flipped at depth 0 (sets the default) and directly inside mem-guard "
+        "scope bodies (which must restore their entry setting); not inside no_autodiff or try bodies.",
         "DESIGN.md §3 C15",
     ),
 })
@@ -175,8 +177,9 @@ CHECKS.update({
 CHECKS.update({
     "C03": (
         "Hypothesis-generated differential testing against NumPy's namesakes (values, shape, dtype), tracked and untracked",
-        "Generated search over functions x operand kinds (tensor, ndarray, python and NumPy scalars) x 8 dtypes x "
-        "layouts x keyword options; NumPy on the underlying arrays is the oracle for shape, dtype and values "
+        "Generated search over functions (differentiable ufuncs/functions/methods/operators, and the non-differentiable "
+        "ufuncs with the comparison and // operators) x operand kinds (tensor, ndarray, python scalars incl. floats that "
+        "low-precision dtypes cannot represent, NumPy scalars) x 8 dtypes x layouts x keyword options; NumPy on the underlying arrays is the oracle for shape, dtype and values "
         "(array_equal with equal_nan), both-raise counts as agreement, and the tracked and no_autodiff evaluations must "
         "coincide. Exploration only.",
         "NumPy is the oracle; small values plus a large-magnitude class; one test-pinned defect (the x**1 / x**2 "
@@ -200,8 +203,9 @@ CHECKS.update({
         "Generated search over sliding_window_view arguments (types, values, layouts, dtypes) and conv/pool "
         "configurations drawn from the specification's predicate rather than from what the implementation accepts: "
         "acceptance <=> predicate, brute-force element formula, read-only view, byte bounds inside the owning buffer; "
-        "valid layer configurations equal naive loops and invalid ones raise; batchnorm, gru, softmax family and losses "
-        "equal their naive formulas. All 1-D conv/pool configurations with X<=8 are enumerated in the quick tier, all 2-D "
+        "valid layer configurations equal naive loops and invalid ones raise; batchnorm, gru and the losses (labels as "
+        "arrays or tensors) equal their naive formulas, softmax/logsoftmax equal the documented equations over the whole "
+        "float range (spreads up to 10^4, float32/float64). All 1-D conv/pool configurations with X<=8 are enumerated in the quick tier, all 2-D "
         "ones with sides<=4 additionally in the thorough tier (exhaustive for that finite sub-space). Exploration elsewhere.",
         "Reference loops written from the docstrings; gru with dropout=0 only (the only RNG-consuming path is not generated).",
         "DESIGN.md §3 C16",
